@@ -54,9 +54,10 @@ def install() -> None:
 
 
 class Sched:
-    def __init__(self, ch: explorer.Chooser, coarse: bool = False) -> None:
+    def __init__(self, ch: explorer.Chooser, coarse: bool = False, only_files: t.Optional[t.Collection[str]] = None) -> None:
         self.ch = ch
         self.coarse = coarse  # only the first line of each function invocation is a point (function-call granularity)
+        self.only_files = frozenset(only_files) if only_files else None  # scheduling points only in these source files (base names)
         self.by_ident: t.Dict[int, int] = {}
         self.sems: t.List[threading.Semaphore] = []
         self.done: t.List[bool] = []
@@ -72,6 +73,8 @@ class Sched:
             return
         if i != self.current:
             self.error = SchedulerError(f"thread {i} runs without the baton (holder {self.current})")
+            return
+        if self.only_files is not None and os.path.basename(code.co_filename) not in self.only_files:
             return
         if self.coarse and line != code.co_firstlineno + 0 and line not in _first_lines(code):
             return
@@ -164,12 +167,12 @@ def _first_lines(code) -> t.FrozenSet[int]:  # noqa: ANN001
     return r
 
 
-def explore(bodies_factory: t.Callable[[], t.Sequence[t.Callable[[], t.Any]]], bound: int, on_exec: t.Callable[[explorer.Chooser, "Sched", t.Any, t.Any], None], coarse: bool = False, root_filter: t.Optional[t.Callable[[int], bool]] = None, max_execs: int = 10**9) -> t.Dict[str, int]:
+def explore(bodies_factory: t.Callable[[], t.Sequence[t.Callable[[], t.Any]]], bound: int, on_exec: t.Callable[[explorer.Chooser, "Sched", t.Any, t.Any], None], coarse: bool = False, root_filter: t.Optional[t.Callable[[int], bool]] = None, max_execs: int = 10**9, only_files: t.Optional[t.Collection[str]] = None) -> t.Dict[str, int]:
     """bodies_factory() -> (bodies, context) is called afresh for every execution (fresh caches / entropy logs)."""
 
     def body(ch: explorer.Chooser):
         bodies, ctx = bodies_factory()
-        s = Sched(ch, coarse)
+        s = Sched(ch, coarse, only_files)
         res = s.run(bodies)
         return s, res, ctx
 
